@@ -16,6 +16,16 @@ BASELINE = ('cd /repo && /venv/bin/python -m pytest -ra -q -p no:cacheprovider -
 
 # id -> (category, technique, level text, level note, design ref)
 CHECKS = {
+    'C01': ('exploration',
+            'bounded-exhaustive token soups + Hypothesis grammar documents against a span/tiling '
+            'invariant checker',
+            'Span arithmetic checked on every strictly parseable string <= 3 (quick) / <= 4 tokens '
+            '(thorough; <= 5 on a reduced alphabet) over the LaTeX-significant alphabet under the '
+            'default and an every-argument-type context, plus thousands of grammar documents; '
+            'tolerant results checked for range/nesting. Exhaustive within the token bound only.',
+            'Trusts the span checker (pv/spans.py, plain integer arithmetic on public attributes) '
+            'and that % / \\ are the comment / escape characters.',
+            'DESIGN.md 5 C01'),
     'C20': ('exploration',
             'bounded-exhaustive enumeration against a counting reference model',
             'Every string <= 7 (quick) / <= 9 (thorough) over {a, NL, CR, space}, every position, '
